@@ -12,6 +12,7 @@ unbounded (any token list, any tree).  What is assumed about lark (validated per
 The LALR acceptance set is not modelled: "for every text that parse() accepts" is taken from the real parser.
 -/
 import Autobean.Proofs.LexPrint
+import Autobean.Proofs.LexIndent
 
 namespace Autobean.C01
 open Autobean.Lex
@@ -170,6 +171,28 @@ theorem leavesIncreasing_plain (toks : List LTok) (t : PTree) (hni : ∀ e ∈ e
   rw [cursorRun_noIndent toks (events t) hni 0]
   simp
 
+/-- Plain A2 suffices when the indents are well placed: if the token leaves met in DFS order have strictly
+increasing indices inside the fed list (plain A2) and, at every `indent`/`indent2` node, `_build_indent` finds
+an `INDENT` token from the cursor reached there (`findIndent toks cursor = some j`) whose index `j` is strictly
+smaller than the index of the first token leaf that follows the node in DFS order (`indentsPlaced`), then the
+exact assumption `LeavesIncreasing` holds, and with it every theorem above. -/
+theorem leavesIncreasing_of_plain_indent (toks : List LTok) (t : PTree)
+    (hinc : (leafIdxs (events t)).Pairwise (· < ·)) (hrange : ∀ i ∈ leafIdxs (events t), i < toks.length)
+    (hind : indentsPlaced toks (events t) 0 = true) : LeavesIncreasing toks t := by
+  unfold LeavesIncreasing
+  rw [cursorRun_iff toks (events t) 0]
+  exact ⟨hinc, fun i hi => ⟨Nat.zero_le _, hrange i hi⟩, hind⟩
+
+/-- … and conversely: `LeavesIncreasing` is exactly "plain A2 and well-placed indents" (this subsumes
+`leavesIncreasing_plain`: without `indent` events `indentsPlaced` is `true`). -/
+theorem leavesIncreasing_iff_plain_indent (toks : List LTok) (t : PTree) :
+    LeavesIncreasing toks t ↔
+      (leafIdxs (events t)).Pairwise (· < ·) ∧ (∀ i ∈ leafIdxs (events t), i < toks.length) ∧
+        indentsPlaced toks (events t) 0 = true := by
+  unfold LeavesIncreasing
+  rw [cursorRun_iff toks (events t) 0]
+  simp
+
 /-! ### Non-vacuity: a concrete document `2000-01-01 *⏎··A:B⏎; c` (transaction, indented posting, trailing
 block comment, no final newline) goes through `postLex`, `build`, `printModel`. -/
 
@@ -204,6 +227,14 @@ example : (build exFed exTree).toOption.map (fun r => printModel r.1 r.2) = some
 /-- the posting sub-model prints `··A:B` -/
 example : (build exFed exTree).toOption.map (fun r => (r.2.subs.map (printModel r.1)).contains "  A:B".toList) =
     some true := by decide +kernel
+/-- the hypotheses of `leavesIncreasing_of_plain_indent` hold on the example (it has an `indent` node) … -/
+example : (leafIdxs (events exTree)).Pairwise (· < ·) ∧ (∀ i ∈ leafIdxs (events exTree), i < exFed.length) ∧
+    indentsPlaced exFed (events exTree) 0 = true ∧ Ev.indent ∈ events exTree := by decide +kernel
+/-- … and `indentsPlaced` is not implied by plain A2: the posting's account leaf moved in front of the `INDENT`
+token (index 6) keeps the leaf indices increasing but the cursor would have to go backwards. -/
+example : let t := PTree.node "posting" [.node "indent" [.absent], .leaf 4, .leaf 7]
+    (leafIdxs (events t)).Pairwise (· < ·) ∧ indentsPlaced exFed (events t) 0 = false ∧
+      ¬ LeavesIncreasing exFed t := by decide +kernel
 /-- a tree that violates A2 (a leaf behind the cursor) really duplicates text: A2 is not redundant. -/
 example : (build exFed (.node "file" [.leaf 2, .leaf 0])).toOption.map (fun r => textOfS r.1 == textOf exFed) =
     some false := by decide +kernel
